@@ -56,7 +56,7 @@ from tlz import merge_sorted, partition, unique
 from dask_expr import _core as core
 from dask_expr._util import (
     _calc_maybe_new_divisions,
-    _convert_to_list,
+    _labels_to_list,
     _tokenize_deterministic,
     _tokenize_partial,
     is_scalar,
@@ -1272,7 +1272,7 @@ class RenameFrame(Elemwise):
             mapping = self.operand("columns")
 
             columns = determine_column_projection(self, parent, dependents)
-            columns = _convert_to_list(columns)
+            columns = _labels_to_list(columns)
             # Keep the input columns whose renamed label is requested; keys of
             # the mapping that are not columns of the frame are ignored
             columns = [
@@ -1935,7 +1935,7 @@ class Assign(Elemwise):
     def _simplify_up(self, parent, dependents):
         if isinstance(parent, Projection):
             columns = determine_column_projection(self, parent, dependents)
-            columns = _convert_to_list(columns)
+            columns = _labels_to_list(columns)
 
             cols = set(columns) - set(self.keys)
             if cols == set(self.frame.columns):
@@ -2112,9 +2112,9 @@ class Projection(Elemwise):
             else:
                 assert b in a
 
-            if any(a.count(bb) > 1 for bb in _convert_to_list(b)):
+            if any(a.count(bb) > 1 for bb in self.columns):
                 # a label that is repeated in a selects all of its columns
-                b = [bb for bb in _convert_to_list(b) for _ in range(a.count(bb))]
+                b = [bb for bb in self.columns for _ in range(a.count(bb))]
             return self.frame.frame[b]
 
 
@@ -2372,7 +2372,7 @@ class AddPrefix(Elemwise):
     def _simplify_up(self, parent, dependents):
         if isinstance(parent, Projection):
             columns = determine_column_projection(self, parent, dependents)
-            columns = _convert_to_list(columns)
+            columns = _labels_to_list(columns)
             columns = [
                 col for col in self.frame.columns if self._new_label(col) in columns
             ]
@@ -2631,7 +2631,7 @@ class Binop(Elemwise):
                 return
             changed = False
             columns = determine_column_projection(self, parent, dependents)
-            columns = _convert_to_list(columns)
+            columns = _labels_to_list(columns)
             columns = [col for col in self.columns if col in columns]
             left, right = self.left, self.right
             # The operands are aligned on their columns and need not have the
@@ -3693,7 +3693,7 @@ class OpAlignPartitions(MaybeAlignPartitions):
             # Both operands contribute to the selected columns. They have to
             # stay DataFrames, so the projection itself is kept on top.
             columns = determine_column_projection(self, parent, dependents)
-            columns = _convert_to_list(columns)
+            columns = _labels_to_list(columns)
             operands = [self.frame, self.other]
             for i, op in enumerate(operands):
                 cols = [col for col in op.columns if col in columns]
